@@ -27,7 +27,7 @@ Proof. exact variant_fields. Qed.
    end over the same a, and the end is not a handle parameter *)
 Theorem C14_end_returns_opposite : forall ret ps o, gen true ret ps = Ok o ->
   forall k t, In (PId (end_name k), t) ps ->
-    ret = false /\ exists a, oneshot_get_type t = Some a /\
+    ret = false /\ exists a, oneshot_get_type t (end_type_name k) = Some a /\
       lo_ret o = Some (opp k, a) /\ lo_tail o = Some (opp k) /\ pre_chans (lo_pre o) = [Some a] /\
       In (end_name k, t) (lo_fields o) /\ ~ In (end_name k) (map fst (lo_params o)).
 Proof. exact end_returns_opposite. Qed.
@@ -64,13 +64,15 @@ Theorem C14_rule_mixed_identifier : forall ret ps x t, In (PId x, t) ps -> conta
   exists d, gen true ret ps = Diag d.
 Proof. exact rule_mixed_identifier. Qed.
 
-(* the declared type of an end parameter is the type of the end the handle puts there.
-   FULL STRENGTH (false, known finding F10: `target.eq(target)` in oneshot_get_type):
-     forall ret ps o, gen true ret ps = Ok o -> coherent ps o *)
-Theorem C14_end_type_coherent_guarded : forall ret ps o, known_class ps = false -> gen true ret ps = Ok o -> coherent ps o.
-Proof. exact end_type_coherent_guarded. Qed.
-Theorem C14_end_type_coherent_refuted : exists ps o, known_class ps = true /\ gen true false ps = Ok o /\ ~ coherent ps o.
-Proof. exact end_type_coherent_refuted. Qed.
+(* the declared type of an end parameter is the type of the end the handle puts there: `..::Sender<a>` for inter_send,
+   `..::Receiver<a>` for inter_recv, the same a in the channel declaration and in the returned opposite end
+   (full strength since the fix of `oneshot_get_type`; formerly guarded by the known class end-type-unchecked, F10) *)
+Theorem C14_end_type_coherent : forall ret ps o, gen true ret ps = Ok o -> coherent ps o.
+Proof. exact end_type_coherent. Qed.
+(* rule: an end parameter whose type does not name the end it asks for is refused *)
+Theorem C14_rule_wrong_end_type : forall ret ps q, In q ps -> is_end_param q = true -> end_type_named q = false ->
+  exists d, gen true ret ps = Diag d.
+Proof. exact rule_wrong_end_type. Qed.
 
 (* ---------- runtime: every interleaving of calls, renames, deliveries, sends and receives ---------- *)
 Section Runtime.
@@ -117,8 +119,8 @@ Print Assumptions C14_rule_without_interact.
 Print Assumptions C14_rule_reserved_from_pattern.
 Print Assumptions C14_rule_inside_pattern_refuted.
 Print Assumptions C14_rule_mixed_identifier.
-Print Assumptions C14_end_type_coherent_guarded.
-Print Assumptions C14_end_type_coherent_refuted.
+Print Assumptions C14_end_type_coherent.
+Print Assumptions C14_rule_wrong_end_type.
 Print Assumptions C14_pairing.
 Print Assumptions C14_ends_paired.
 Print Assumptions C14_getter_at_call_time.
